@@ -115,6 +115,7 @@ def allRules (disbandFirst : Bool) (cfg : Cfg) (st : Store) (cmd : Cmd) (id : By
 /-- permission channel id of a command: `none` = NormalizePersonChannel failed;
     `skip` = permission-free (request scoped) -/
 inductive Prep | free | invalid | id (id : Bytes) (wasCmd : Bool)
+  deriving DecidableEq
 
 def prep (cmd : Cmd) : Prep :=
   if cmd.requestScoped || (cmd.scopedN > 0 && cmd.chanId.isEmpty) then .free
